@@ -401,7 +401,7 @@ def replay(ctx, case):
 
 
 LEVEL_TEXT = ('Explicit-state BFS (depth 3, thorough 4) over all sequences of run(pred) / switch(A<->B) for 20 program shapes with one to three grounded predicates (used twice, aggregating, chained, '
-              'explicitly named table, independent, under negation/combine, diamond, ordered/limited, through an injectible predicate, 12 columns, a chain of four, falsy values, a second attached database named by @Dataset, predicates grounded to ANOTHER predicate's table incl. an alias of an alias), from an empty file and from a file with stale differently '
+              'explicitly named table, independent, under negation/combine, diamond, ordered/limited, through an injectible predicate, 12 columns, a chain of four, falsy values, a second attached database named by @Dataset, predicates grounded to the table of ANOTHER predicate incl. an alias of an alias), from an empty file and from a file with stale differently '
               'shaped tables; every step executed by the real RunSqlScript against one persistent SQLite file and compared with a reference model: printed rows, contents of every table, '
               'no write when the grounded predicate itself is requested, idempotence of repeated runs, dependants reading the table. Four shapes are also re-run by fresh processes under different hash seeds: output and tables must not change.')
 LEVEL_NOTE = 'Trusted: reference evaluator; the model rule "run(X) rewrites exactly the grounded predicates X depends on". Bounded: 20 shapes, 2 versions, depth <=4.'
